@@ -375,11 +375,33 @@ static void sd_case(uint64_t idx, void *ctx)
     mc_nontrivial();
 }
 /* ---- objects of other modules in the tracked build: once they are deleted the table is empty again, whatever they went through in between */
-static void so_desc(uint64_t idx, void *ctx, char *b, size_t n) { static const char *w[3] = { "open (refused: nobody listens), delete", "open, close, open again, delete", "open, open again, close, delete" }; (void) ctx; snprintf(b, n, "client socket for a UNIX path nobody listens on: %s; records left in the table", w[idx]); }
+static void so_desc(uint64_t idx, void *ctx, char *b, size_t n) { static const char *w[3] = { "open (refused: nobody listens), delete", "open, close, open again, delete", "open, open again, close, delete" }; (void) ctx;
+    if (idx == 3) { snprintf(b, n, "str and ustr \"abcdef\": splice_from_ptr(1,2,\"XY\") (same length), splice_from_ptr(0,0,\"\"), splice_from_ptr(2,1,\"LONGER\"), splice(1,3,NULL), delete; records left in the table"); return; }
+    if (idx == 4) { snprintf(b, n, "config subsystem: init, expand %%put(k v), [%%get(k fallback)], [%%get(unset fallback)], [%%get(k)], free; records left in the table"); return; }
+    snprintf(b, n, "client socket for a UNIX path nobody listens on: %s; records left in the table", w[idx]); }
 static void so_case(uint64_t idx, void *ctx)
 {
-    (void) ctx; mc_set_shape("socket"); libast_debug_level = 0; sibling_tables_prelude();
+    (void) ctx; mc_set_shape(idx == 3 ? "strings" : (idx == 4 ? "config subsystem" : "socket")); libast_debug_level = 0; sibling_tables_prelude();
     libast_debug_level = 5; malloc_rec.cnt = 0; g_ndead = 0; g_realloc_mode = 0;
+    if (idx == 3) {
+        spif_str_t a = spif_str_new_from_ptr((spif_charptr_t) "abcdef"); spif_ustr_t u8 = spif_ustr_new_from_ptr((spif_charptr_t) "abcdef");
+        spif_str_splice_from_ptr(a, 1, 2, (spif_charptr_t) "XY"); spif_str_splice_from_ptr(a, 0, 0, (spif_charptr_t) ""); spif_str_splice_from_ptr(a, 2, 1, (spif_charptr_t) "LONGER"); spif_str_splice(a, 1, 3, (spif_str_t) NULL);
+        spif_ustr_splice_from_ptr(u8, 1, 2, (spif_charptr_t) "XY"); spif_ustr_splice_from_ptr(u8, 0, 0, (spif_charptr_t) ""); spif_ustr_splice_from_ptr(u8, 2, 1, (spif_charptr_t) "LONGER"); spif_ustr_splice(u8, 1, 3, (spif_ustr_t) NULL);
+        if (strcmp((char *) a->s, (char *) u8->s)) FAIL("spif_ustr_splice_from_ptr", "model:value", "strings", "str and ustr disagree after the same splices: \"%s\" / \"%s\"", (char *) a->s, (char *) u8->s);
+        spif_str_del(a); spif_ustr_del(u8);
+        if (malloc_rec.cnt != 0) FAIL("spifmem", "model:record-count", "strings", "%lu records are left after the string objects were deleted", (unsigned long) malloc_rec.cnt);
+        malloc_rec.cnt = 0; libast_debug_level = 0; mc_nontrivial(); mc_outcome(idx); return;
+    }
+    if (idx == 4) {
+        static const char *LN[4] = { "%put(k v)", "[%get(k fallback)]", "[%get(unset fallback)]", "[%get(k)]" }, *WANT[4] = { "", "[v]", "[fallback]", "[v]" };
+        spifconf_init_subsystem();
+        for (int i = 0; i < 4; i++) { char *b2 = MALLOC(CONFIG_BUFF); snprintf(b2, CONFIG_BUFF, "%s", LN[i]); spifconf_shell_expand((spif_charptr_t) b2);
+            if (strcmp(b2, WANT[i])) FAIL("spifconf_shell_expand", "model:value", "config subsystem", "\"%s\" expands to \"%.40s\", expected \"%s\"", LN[i], b2, WANT[i]);
+            FREE(b2); }
+        spifconf_free_subsystem();
+        if (malloc_rec.cnt != 0) FAIL("spifmem", "model:record-count", "config subsystem", "%lu records are left after the config subsystem was freed", (unsigned long) malloc_rec.cnt);
+        malloc_rec.cnt = 0; libast_debug_level = 0; mc_nontrivial(); mc_outcome(idx); return;
+    }
     char u[300]; const char *td = getenv("VERIF_SCRATCH"); snprintf(u, sizeof u, "unix:%s/nobody-%d", td ? td : "/tmp", (int) getpid());
     spif_url_t url = spif_url_new_from_ptr((spif_charptr_t) u);
     spif_socket_t s = spif_socket_new_from_urls((spif_url_t) NULL, url);
@@ -413,7 +435,7 @@ int main(int argc, char **argv)
     libast_debug_level = 0;
 #if TRACKED
     if (!mc_arg("only", NULL)) mc_e2_level("free_array", 3, 8, fa_case, fa_desc, NULL);
-    if (!mc_arg("only", NULL)) mc_e2_level("other_modules", 1, 3, so_case, so_desc, NULL);
+    if (!mc_arg("only", NULL)) mc_e2_level("other_modules", 1, 5, so_case, so_desc, NULL);
     if (!mc_arg("only", NULL)) { mc_e2_level("x_resources", 1, 2, xr_case, xr_desc, NULL); mc_e2_level("strdup_of_tracked_block", 1, 1, sd_case, sd_desc, NULL); }
 #if SANITIZED_BUILD
     mc_e2_level("many_blocks", 66000, (uint64_t) NMANY * 3, many_case, many_desc, NULL);
